@@ -256,7 +256,8 @@ Fixpoint inner_loop (fuel : nat) (X Y : tensor F) (st : istate) : istate :=
   | S k => let st' := inner_step X Y (i_ls st) (i_u st) false in
            if fltb Op (ldist (nsamp Y) (i_u st) (i_u st')) tol then st' else inner_loop k X Y st'
   end.
-(* the first pass compares with +inf and never stops; n_iter_max = 0 is outside the model (the source raises) *)
+(* the first pass compares with +inf and never stops; the budget n_iter_max = 0 is rejected by cp_plsr_fit below (the source
+   raises), inner_state itself is only used with n_iter_max >= 1 *)
 Definition inner_state (n_iter_max : nat) (X Y : tensor F) : istate :=
   inner_loop (n_iter_max - 1) X Y (inner_step X Y [] (col0 Y) true).
 Definition inner_cp (n_iter_max : nat) (X Y : tensor F) : list (tensor F) * tensor F :=
@@ -269,6 +270,10 @@ Definition lstsq_ne (Tc : list (list F)) (u : list F) : list F :=
 (* CP_PLSR(n_components, tol, n_iter_max).fit(X, Y) *)
 Definition fit_cp (n_iter_max ncomp : nat) (X Y : tensor F) : plsr :=
   fit (inner_cp n_iter_max) lstsq_ne ncomp X Y.
+(* ... as the source behaves on the budget 0: with n_iter_max = 0 and at least one component the body of the pass loop
+   never runs and fit raises (comp_Y_factors_1 is unbound); with no component nothing is computed and fit returns *)
+Definition cp_plsr_fit (n_iter_max ncomp : nat) (X Y : tensor F) : res plsr :=
+  if (n_iter_max =? 0) && (0 <? ncomp) then Err else Ok (fit_cp n_iter_max ncomp X Y).
 End Inner.
 
 (* ---------------------------------------------------------------- the iteration of CPRegressor.fit /
